@@ -16,8 +16,8 @@ type Element struct {
 func (e Element) String() string { return e.Kind + ":" + e.Value }
 
 func Field(name string) Element { return Element{"field", name} }
-func Index(i int) Element      { return Element{"index", fmt.Sprint(i)} }
-func Key(k any) Element        { return Element{"key", fmt.Sprintf("%#v", k)} }
+func Index(i int) Element       { return Element{"index", fmt.Sprint(i)} }
+func Key(k any) Element         { return Element{"key", fmt.Sprintf("%#v", k)} }
 
 // Wrapped records one Wrap call.
 type Wrapped struct {
